@@ -30,6 +30,24 @@ def make_fxns(scn):
     return trans_time, rec_time, joint, joint_sparse
 
 
+def make_table_fxn(scn):
+    """joint style backed by a table the user built once: every time the k-th (mod K) infection of a node comes round again
+    the function hands out the SAME dict and list objects."""
+    K = scn["k"]
+    n = scn["n"]
+    table = {}
+    jcalls = {}
+
+    def joint_table(node, nbrs):
+        jcalls[node] = jcalls.get(node, 0) + 1
+        key = (node, (jcalls[node] - 1) % K)
+        if key not in table:
+            table[key] = {v: [float(x) for x in scn["delay"][node - 1][v - 1][key[1]]] for v in nbrs}
+        return table[key], float(scn["dur"][node - 1][key[1]])
+
+    return joint_table
+
+
 def log_from_full(sim, nodes):
     ch = []
     for u in nodes:
@@ -81,9 +99,12 @@ def run_all(scn, reflog, EoN):
     tmin, tmax = float(scn["tmin"]) - sh, float(scn["tmax"]) - sh
     want = [[float(e[0]) - sh, e[1], e[2], e[3]] for e in reflog]
     kw = dict(initial_infecteds=list(I0), tmin=tmin, tmax=tmax)
-    for iface in ("separate", "joint", "joint-sparse", "separate,labels-from-0", "joint,labels-from-0"):
+    for iface in ("separate", "joint", "joint-sparse", "joint-table", "separate,labels-from-0", "joint,labels-from-0"):
         tt, rt, jt, js = make_fxns(scn)
         fk = dict(trans_time_fxn=tt, rec_time_fxn=rt) if iface == "separate" else dict(trans_and_rec_time_fxn=jt if iface == "joint" else js)
+        if iface == "joint-table":
+            jtab = make_table_fxn(scn)
+            fk = dict(trans_and_rec_time_fxn=jtab)
         if iface == "separate":
             # the two user functions receive their own extra arguments (trans_time_args / rec_time_args)
             def tt_a(u, v, rd, tag, _tt=tt):
